@@ -131,3 +131,41 @@ PROPS = {
 }
 
 NOT_CLAIMED = {}
+
+PHY_TB = [
+    "hand models coq/Model/Phy.v (receive_telegram, receive_all_telegrams, poll_pending_received_bytes, transmit_telegram of src/phy/mod.rs, "
+    "both over a byte list and over an abstract PHY = view/drop pair), coq/Model/SimBus.v (SimulatorBus/SimulatorPhy of src/phy/simulator.rs: "
+    "current_cursor, pending_bytes, is_active, enqueue_telegram with its collision/delay panics, cursor) and coq/Model/Telegram.v (decoder), "
+    "tied by differential execution on this run's cases",
+    "one receive_* call sees an atomic snapshot of the PHY (true of SimulatorPhy and of the harness PHY: the bus time does not change inside a call)",
+    "Instant/Duration arithmetic as modelled: i64/u64 with overflow = panic (debug build), Instant - Instant = absolute difference",
+]
+
+PROPS["C16"] = {
+    "coq": "Properties/C16.v",
+    "domains": ["phyrx"],
+    "nontrivial": ["buf:", "sim:RXS", "sim:RXQ"],
+    "rule": "cases = generated RXB/RXS/RXQ lines, deduplicated: every chunking of 11 short streams (<= 11 bytes) under receive_all_telegrams and "
+            "receive_telegram; every SD1/SD2/SD3 PDU length x SAP combination inside 1..3-telegram streams with random chunkings; random streams of "
+            "1..8 telegrams (token, SC, SD1/SD2/SD3) in 1..2 episodes with 7 chunking styles incl. empty polls; streams with garbage episodes of 8 kinds "
+            "between clean ones; simulator runs over all 11 baudrates with polls during and between transmissions; simulator corner cases (short gaps, "
+            "collisions, receiver transmitting, time running backwards, arithmetic overflow). non-trivial = harness-PHY cases + simulator cases (each is a "
+            "whole poll sequence)",
+    "trusted_base": PHY_TB,
+    "technique": "Coq proof (refinement of the receive helpers to a frame-length spec of the byte stream, by induction over telegram lists and chunk lists) "
+                 "+ differential correspondence model vs crate over the harness PHY and SimulatorPhy",
+    "level_text": "Machine-checked theorems (Coq 8.16.1, closed under the global context), for ALL lists of valid telegrams and ALL chunkings (no bounds): "
+                  "the model of receive_all_telegrams / receive_telegram, fed chunk after chunk, delivers exactly the telegrams sent, in order, each once, "
+                  "flags a telegram as last exactly when nothing is buffered behind it, leaves exactly the incomplete tail in the buffer, terminates within "
+                  "|buffer|+1 iterations without panic for every byte string and every callback, drops the whole buffer on undecodable data and then "
+                  "receives a telegram that arrives separately; the simulator's byte availability is a monotone prefix of the stream. The helper model "
+                  "over an abstract PHY (view/drop) is proved equal to the byte-list model for every coherent PHY, and SimulatorPhy and the harness PHY "
+                  "are proved coherent. Models tied to the crate on every run by ~13k poll sequences over both PHYs with 0 divergences; the "
+                  "frame-length oracle (decoder-free) also runs on the crate's outputs.",
+    "level_note": "Trusted: Coq kernel, translator for constants/tables, extraction + OCaml driver, Rust harness (its BufPhy and the reference frame builder); "
+                  "hand models validated differentially, not verified, against phy/mod.rs, simulator.rs, telegram.rs. The serial/linux/rp2040 PHYs are not covered.",
+    "design_ref": "DESIGN.md section 4, C16",
+    "assumptions": ["telegrams valid for the encoder: addresses 0..127, SAP/PDU bytes 0..255, length byte <= 249",
+                    "fault-free clauses: the bytes seen are the concatenation of the frames; resync clause: the next telegram arrives after the discard",
+                    "simulator monotonicity: bus time not before the start of the last transmission and below the u64 overflow point of time_to_bits"],
+}
